@@ -143,6 +143,76 @@ void cm_static_case(Ctx &c) {
     run_copymove<Idx>(c, op, after, build, answers, modify, a.size() * sizeof(K) / 4 + 64);
 }
 
+/// Assignment chain: ONE long-lived object is assigned a ladder of large indexes whose sizes shrink (or grow) by a few
+/// percent per step, alternating copy- and move-assignment, the source destroyed each time. State left over from the
+/// previous, slightly different content (tables sized by thresholds, cached tails, select / rank directories) shows up as a
+/// wrong answer right after the step at which the sizes straddle whatever threshold governs that state.
+template<class K, class Idx>
+void cm_chain_case(Ctx &c) {
+    using D = UDom<K>;
+    size_t n0 = 200000 + c.rng.below(c.thorough() ? 1400000 : 1000000);
+    double ratio = 0.90 + 0.085 * c.rng.unit();
+    int steps = 5 + int(c.rng.below(c.thorough() ? 14 : 8));
+    bool down = c.rng.chance(2, 3);
+    std::vector<K> master(n0);
+    {
+        uint64_t cur = c.rng.below(1000), maxstep = std::max<uint64_t>(1, std::min<uint64_t>(D::R / n0, c.rng.pick<uint64_t>({3, 40, 100000})));
+        for (auto &x : master) { x = D::to_key(cur); cur = sat_add(cur, c.rng.below(maxstep + 1), D::R); }
+    }
+    std::vector<size_t> sizes;
+    double sz = double(n0);
+    for (int i = 0; i <= steps && sz > 1000; ++i, sz *= ratio) sizes.push_back(size_t(sz));
+    if (!down) std::reverse(sizes.begin(), sizes.end());
+    c.traits = std::string("assignment_chain,") + (down ? "shrinking" : "growing");
+    Hasher h; h.add(n0); h.add(uint64_t(ratio * 1e6)); h.add(steps); h.add(c.rng.s);
+    c.input_hash = h.h;
+    c.dumper = [&]() {
+        Spec s;
+        s.set_one("config", c.cfg.name); s.set_one("case", c.case_idx); s.set_vec("chain_sizes", sizes);
+        s.set_one("note", "keys_regenerated_from_seed");
+        return s;
+    };
+    auto answers = [&](const Idx &x, size_t n) {
+        std::vector<uint64_t> out;
+        Rng qr(12345);
+        auto ask = [&](const K &q) { auto r = x.search(q); out.push_back(r.pos); out.push_back(r.lo); out.push_back(r.hi); };
+        for (int i = 0; i < 3000; ++i) ask(master[qr.below(n)]);
+        for (size_t i = n > 400 ? n - 400 : 0; i < n; ++i) ask(master[i]);   // the top end of the key range
+        for (size_t i = 0; i < std::min<size_t>(n, 100); ++i) ask(master[i]);
+        ask(key_maxvalid<K>());
+        out.push_back(x.segments_count()); out.push_back(x.height()); out.push_back(x.size_in_bytes());
+        return out;
+    };
+    std::unique_ptr<Idx> dst(new Idx(master.begin(), master.begin() + sizes[0]));
+    uint64_t compared = 0;
+    for (size_t k = 1; k < sizes.size(); ++k) {
+        std::unique_ptr<Idx> src(new Idx(master.begin(), master.begin() + sizes[k]));
+        auto expected = answers(*src, sizes[k]);
+        bool moved = k % 2 == 0;
+        if constexpr (std::is_move_assignable_v<Idx> && std::is_copy_assignable_v<Idx>) {
+            if (moved) *dst = std::move(*src);
+            else *dst = *src;
+        } else if constexpr (std::is_copy_assignable_v<Idx>) *dst = *src;
+        else return;
+        src.reset();
+        auto got = answers(*dst, sizes[k]);
+        compared += got.size();
+        if (got != expected) {
+            size_t i = 0;
+            while (i < std::min(got.size(), expected.size()) && got[i] == expected[i]) ++i;
+            c.violation("copy_answers_differ", J().str("operation", moved ? "move_assign_over_populated" : "copy_assign_over_populated").str("when", "assignment_chain")
+                                                   .num("step", k).num("previous_size", sizes[k - 1]).num("assigned_size", sizes[k]).num("first_differing_answer", i));
+            break;
+        }
+    }
+    c.count("assignment_chains");
+    c.count("chain_steps", sizes.size() - 1);
+    c.count("answers_compared", compared);
+    c.maxc("max_chain_index_size", n0);
+    c.nontrivial = true;
+    if (c.want_sample()) c.sample(J().num("first_size", sizes[0]).num("last_size", sizes.back()).num("steps", sizes.size() - 1));
+}
+
 // ------------------------------------------------------------------------------------------------ multidimensional
 template<uint8_t D, class T, size_t Eps>
 void cm_md_case(Ctx &c) {
@@ -244,6 +314,7 @@ void cm_dyn_case(Ctx &c) {
 }
 
 #define VF_CM_STATIC(NAME, K, ...) VF_REGISTER(std::string("cm/") + NAME, (&::vf::cm_static_case<K, __VA_ARGS__>), 1.0)
+#define VF_CM_CHAIN(NAME, K, ...) VF_REGISTER(std::string("cm/") + NAME + "#chain", (&::vf::cm_chain_case<K, __VA_ARGS__>), 0.008)
 #define VF_CM_MD(D, T, E) VF_REGISTER(std::string("cm/md,d" #D ",") + ::vf::KT<T>::name() + ",e" #E, (&::vf::cm_md_case<D, T, E>), 1.0)
 #define VF_CM_DYN(NAME, K, V, ...) VF_REGISTER(std::string("cm/dyn,") + NAME, (&::vf::cm_dyn_case<K, V, __VA_ARGS__>), 1.0)
 
